@@ -26,7 +26,8 @@ ASSUMPTIONS = ['float init, custom init classes and user-defined op callables be
 SHARD = 300
 
 INITS = {'int': ('IInt', int), 'list': ('IList', list), 'tuple': ('ITuple', tuple), 'str': ('IStr', str),
-         'dict': ('(IDict false)', dict), 'odict': ('(IDict true)', collections.OrderedDict)}
+         'dict': ('(IDict false)', dict), 'odict': ('(IDict true)', collections.OrderedDict),
+         'strp': ('(IStrOf ">")', lambda: '>'), 'strpp': ('(IStrOf "ab")', lambda: 'ab')}
 OPS = {'iadd': ('OIadd', operator.iadd), 'add': ('OAdd', operator.add), 'mul': ('OMul', operator.mul),
        'count': ('OCount', lambda cur, val: cur + 1), 'update': ('OUpdate', None), 'last': ('OLast', lambda cur, val: val)}
 
@@ -70,7 +71,7 @@ class Gen:
             target = r.choice([5, None, 'abc'])
             cont = 'list'
         c = r.random()
-        natural = {'int': ('int', 'iadd'), 'list': ('list', 'iadd'), 'tuple': ('tuple', 'iadd'), 'str': ('str', 'iadd'),
+        natural = {'int': ('int', 'iadd'), 'list': ('list', 'iadd'), 'tuple': ('tuple', 'iadd'), 'str': (r.choice(['str', 'strp', 'strpp']), 'iadd'),
                    'dict': ('dict', 'update'), 'mixed': ('list', 'iadd'), 'optint': ('int', 'last')}[kind]
         if c < 0.45:
             init, op = natural
@@ -84,7 +85,7 @@ class Gen:
                 init = 'dict'
             opd = ['fold', init, op]
         elif c < 0.55:
-            opd = ['sum', r.choice(['int', 'int', 'list', 'str'])]
+            opd = ['sum', r.choice(['int', 'int', 'list', 'str', 'strp'])]
         elif c < 0.6:
             opd = ['count']
         elif c < 0.72:
@@ -92,7 +93,7 @@ class Gen:
         elif c < 0.8:
             opd = ['flatten_lazy']
         elif c < 0.9:
-            opd = ['levels', r.choice([0, 1, 2, 3]), r.choice(['list', 'list', 'tuple', 'int', 'str'])]
+            opd = ['levels', r.choice([0, 1, 2, 3]), r.choice(['list', 'list', 'tuple', 'int', 'str', 'strpp'])]
         elif c < 0.95:
             opd = ['merge', r.choice(['dict', 'dict', 'odict'])]
         else:
@@ -111,6 +112,12 @@ def corpus():
         {'target': t, 'gen': False, 'op': ['levels', 2, 'list']},
         {'target': {'k': 'list', 'id': 1, 'items': [1, 2, 3]}, 'gen': False, 'op': ['sum', 'int']},
         {'target': 5, 'gen': False, 'op': ['sum', 'int']},
+        # a NON-EMPTY string accumulator is a start value (never a separator)
+        {'target': {'k': 'list', 'id': 1, 'items': ['a', 'b', 'c']}, 'gen': False, 'op': ['sum', 'strp']},
+        {'target': {'k': 'list', 'id': 1, 'items': ['a', 'b', 'c']}, 'gen': True, 'op': ['fold', 'strpp', 'iadd']},
+        {'target': {'k': 'list', 'id': 1, 'items': ['a']}, 'gen': False, 'op': ['flatten', 'strp']},
+        {'target': {'k': 'list', 'id': 1, 'items': []}, 'gen': False, 'op': ['sum', 'strp']},
+        {'target': {'k': 'list', 'id': 1, 'items': [{'k': 'list', 'id': 2, 'items': ['a', 'b']}, {'k': 'list', 'id': 3, 'items': ['c']}]}, 'gen': False, 'op': ['levels', 2, 'strpp']},
         {'target': {'k': 'list', 'id': 1, 'items': [{'k': 'dict', 'od': False, 'id': 2, 'items': [['a', 1]]}, {'k': 'dict', 'od': False, 'id': 3, 'items': [['a', 2], ['b', 3]]}]},
          'gen': False, 'op': ['merge', 'dict']},
     ]
